@@ -476,6 +476,53 @@ static void ev_waiter(caller_t *c)
     int v = (p && g_ev_nbytes) ? *(int *)p : 0;
     EV("\"e\":\"ERet\",\"t\":%d,\"op\":\"wait\",\"ok\":1,\"v\":%d", c->id, v);
 }
+/* A consumer that recycles the eventual as soon as it sees it ready (test, reset, wait for the
+ * next set) while the first setter may still be waking the waiters of the first round; the
+ * second value is set only some time after the consumer has started to wait again. */
+static volatile int g_ev_recycled;
+static void ev_recycler(caller_t *c)
+{
+    int seen = 0;
+    for (int i = 0; i < 3000 && !seen; i++) {
+        void *p = NULL;
+        ABT_bool rdy = ABT_FALSE;
+        EV("\"e\":\"ECall\",\"t\":%d,\"op\":\"test\",\"v\":0", c->id);
+        CHK(ABT_eventual_test(g_ev, &p, &rdy));
+        int v = (rdy == ABT_TRUE && p && g_ev_nbytes) ? *(int *)p : 0;
+        EV("\"e\":\"ERet\",\"t\":%d,\"op\":\"test\",\"ok\":%d,\"v\":%d", c->id, rdy == ABT_TRUE, v);
+        seen = rdy == ABT_TRUE;
+        if (!seen)
+            drv_pause(c);
+    }
+    if (!seen) {
+        g_ev_recycled = -1;
+        return;
+    }
+    EV("\"e\":\"ECall\",\"t\":%d,\"op\":\"reset\",\"v\":0", c->id);
+    CHK(ABT_eventual_reset(g_ev));
+    EV("\"e\":\"ERet\",\"t\":%d,\"op\":\"reset\",\"ok\":1,\"v\":0", c->id);
+    void *p = NULL;
+    EV("\"e\":\"ECall\",\"t\":%d,\"op\":\"wait\",\"v\":0", c->id);
+    g_ev_recycled = 1;
+    CHK(ABT_eventual_wait(g_ev, &p));
+    int v = (p && g_ev_nbytes) ? *(int *)p : 0;
+    EV("\"e\":\"ERet\",\"t\":%d,\"op\":\"wait\",\"ok\":1,\"v\":%d", c->id, v);
+}
+static void ev_late_setter(caller_t *c)
+{
+    while (!g_ev_recycled)
+        drv_pause(c);
+    if (g_ev_recycled < 0)
+        return;
+    for (int i = 0; i < c->x[1]; i++)
+        drv_pause(c);
+    int val = c->x[0];
+    EV("\"e\":\"ECall\",\"t\":%d,\"op\":\"set\",\"v\":%d", c->id, val);
+    int r = ABT_eventual_set(g_ev, g_ev_nbytes ? &val : NULL, g_ev_nbytes);
+    if (r != ABT_SUCCESS && r != ABT_ERR_EVENTUAL)
+        CHK(r);
+    EV("\"e\":\"ERet\",\"t\":%d,\"op\":\"set\",\"ok\":%d,\"v\":0", c->id, r == ABT_SUCCESS);
+}
 static void scn_eventual(void)
 {
     g_ev_nbytes = rnd(4) ? (int)sizeof(int) : 0;
@@ -483,11 +530,24 @@ static void scn_eventual(void)
     int rounds = 1 + rnd(2);
     for (int r = 0; r < rounds; r++) {
         int nset = 1 + rnd(2), nwait = rnd(4);
-        assign_kinds(nset + nwait, 1, 1);
+        int recycle = rnd(3) == 0;
+        g_ev_recycled = 0;
+        if (recycle) {
+            nset = 1;
+            nwait = 1 + rnd(4);
+        }
+        assign_kinds(nset + nwait + 2 * recycle, 1, 1);
         EV("\"e\":\"Eventual\",\"nbytes\":%d,\"round\":%d", g_ev_nbytes, r);
-        for (int i = 0; i < nset + nwait; i++) {
+        for (int i = 0; i < nset + nwait + 2 * recycle; i++) {
             caller_t *c = &g_c[i];
-            if (i < nset) {
+            if (i >= nset + nwait) {
+                /* the recycler and the late setter: never tasklets (they poll) */
+                if (c->kind == K_TASK)
+                    c->kind = K_ULT;
+                c->body = i == nset + nwait ? ev_recycler : ev_late_setter;
+                c->x[0] = g_ev_nbytes ? 10 * (r + 1) + 7 : 0;
+                c->x[1] = 20 + rnd(60);
+            } else if (i < nset) {
                 c->body = ev_setter;
                 c->x[0] = g_ev_nbytes ? 10 * (r + 1) + i + 1 : 0;
                 c->x[1] = rnd(2);
